@@ -56,6 +56,13 @@ Theorem c19_suggestion_matches_partial :
 Proof. exact matches_partial. Qed.
 Print Assumptions c19_suggestion_matches_partial.
 
+(* ... and every suggestion for a description without a NUL byte at least loads (to one rule) *)
+Theorem c19_suggestion_loads_partial :
+  forall (re : string -> string -> option bool) (d : string) (neg : bool),
+    no_nul d = true -> exists b, observe re Orig d (tags_of neg) = ObsLoaded b.
+Proof. exact loads_partial. Qed.
+Print Assumptions c19_suggestion_loads_partial.
+
 (* ---- repaired source: the full statements hold for ALL descriptions ---- *)
 Theorem c19_suggestion_matches_fixed : c19_suggestion_matches_statement Fixed.
 Proof. exact matches_fixed. Qed.
@@ -97,7 +104,8 @@ Print Assumptions c19_suggestion_loads.
 Example c19_guard_satisfiable :
   plain_guard "Netflix.com 12345 SEATTLE WA" = false /\ plain_guard "NETFLIX 12345 SEATTLE WA" = true /\
   plain_guard "sq *Bakery 98101" = true /\ plain_guard "Acme Foo" = false /\ plain_guard "STORE #12X" = false /\
-  suggest_pattern "sq *Bakery 98101" = Some "BAKERY".
+  suggest_pattern "sq *Bakery 98101" = Some "BAKERY" /\ no_nul "Say ""hi"" (a\b) $5.00 *" = true /\
+  observe no_re Orig "Say ""hi"" (a\b) $5.00 *" ["refund"] = ObsLoaded false.
 Proof. vm_compute. repeat split; reflexivity. Qed.
 Example c19_fixed_examples :
   suggested_rule Fixed "Starbucks Store 12345 Seattle WA" [] =
